@@ -890,7 +890,8 @@ class _MetaStream:
 
 
 def build_image(tree, block_size=4096, comp=1, use_frags=True, exportable=True, compress_data=False, with_index=False,
-                mod_time=0, dev_pad=4096, inode_order=None, extra=None, raw_names=None, entry_shuffle=None, entry_ref_override=None):
+                mod_time=0, dev_pad=4096, inode_order=None, extra=None, raw_names=None, entry_shuffle=None, entry_ref_override=None,
+                last_inode=None, cut_inode_tail=0):
     """Returns (bytes, FieldMap, info).  tree: path -> gentree.Node ('' = root)."""
     from . import gentree
     bs = block_size
@@ -921,6 +922,10 @@ def build_image(tree, block_size=4096, comp=1, use_frags=True, exportable=True, 
     for p in inodes:
         if p not in order:
             order.append(p)
+    if last_inode is not None:
+        # hostile layout: this inode is stored last in the inode table (cut_inode_tail then removes the end of its record)
+        order.remove(last_inode)
+        order.append(last_inode)
     number = {p: i + 1 for i, p in enumerate(order)}
     nlink = {p: 0 for p in inodes}
     for p in tree:
@@ -1132,6 +1137,8 @@ def build_image(tree, block_size=4096, comp=1, use_frags=True, exportable=True, 
     img += comp_opts
     img += data
     inode_table = len(img)
+    if cut_inode_tail:
+        del istream.buf[len(istream.buf) - cut_inode_tail:]
     img += istream.serialise()
     dir_table = len(img)
     img += dstream.serialise()
